@@ -13,7 +13,8 @@ Record case14 : Type := {
   c14_sgrid : option sgrid_attrs;
   c14_dims : list cdim;
   c14_user : option topo;
-  c14_expected : option topo;          (* the topology the convention table prescribes *)
+  c14_expected : option topo;          (* the topology the convention table prescribes; None: refuse *)
+  c14_unspecified : bool;              (* the annotation is outside both tables: the property is silent *)
   c14_impl : res topo                  (* Grid(ds).axes[*].coords, in Grid order *)
 }.
 
@@ -33,11 +34,11 @@ Definition check14 (c : case14) : bool * bool * bool :=
   let m := ctor_coords (c14_user c) (parse_metadata (c14_conv c) (c14_sgrid c) (c14_dims c)) in
   match c14_impl c with
   | Ok t =>
-    ( match c14_expected c with Some e => topo_map_eqb e t && topo_order_eqb e t | None => false end,
+    ( c14_unspecified c || match c14_expected c with Some e => topo_map_eqb e t && topo_order_eqb e t | None => false end,
       match m with Ok mt => topo_map_eqb mt t && topo_order_eqb mt t | Err _ => false end,
       true )
   | Err k =>
-    ( match c14_expected c with Some _ => false | None => true end,
+    ( c14_unspecified c || match c14_expected c with Some _ => false | None => true end,
       match m with Err _ => true | Ok _ => false end,
       match m with Err k' => ekind_eqb k k' | Ok _ => true end )
   end.
